@@ -29,7 +29,7 @@ impl Check for C08Driver {
             host_faults: true,
             recording_filter: false,
             max_ports: 3,
-            shared_segments: false,
+            shared_segments: true,
         };
         let mut d = Driver::new(ch, cfg);
         d.w.keep_emitted = false;
